@@ -1,3 +1,4 @@
+SS_CAP = 264
 SYM_CPP = 'src/lib/ebus/symbol.cpp'
 SYM_H = 'src/lib/ebus/symbol.h'
 
@@ -70,6 +71,7 @@ UNIT = dict(
         dict(file=SYM_CPP, name='isValidAddress', cname='isValidAddress', self=None),
         # inline accessors of symbol.h
         dict(_acc, name='operator[]', sig='(const size_t index)', cname='SymbolString_at_nc'),
+    dict(_acc, name='operator[]', sig='(const size_t index)', cname='SymbolString_at_nc_inb'),
         dict(_acc, name='operator[]', sig='(size_t index) const', cname='SymbolString_at', cfg=dict(index=[(r'^m_data$', 'vsym_get')])),
         dict(_acc, name='push_back', cname='SymbolString_push_back'),
         dict(_acc, name='size', cname='SymbolString_size'),
@@ -105,3 +107,7 @@ R('parseHexEscaped', 'h_parseHexEscaped', 'SymbolString_parseHexEscaped', ['pars
   defines=['VSTR_CAP=64', 'VLIBC_MAXLEN=4'], cost=30)
 R('parseHex', 'h_parseHex', 'SymbolString_parseHex', ['parseInt'], loops=True,
   defines=['VSTR_CAP=64', 'VLIBC_MAXLEN=4'], cost=30)
+
+for _n in ('at_nc', 'at_nc_inb', 'at', 'push_back', 'size', 'clear', 'adjustHeader', 'getDataSize', 'getCalculatedDataSize', 'dataAt', 'dataAt_nc', 'isComplete'):
+    R('ss_' + _n, 'h_ss_' + _n, 'SymbolString_' + _n, unwind=SS_CAP + 1 if _n in ('at_nc', 'adjustHeader', 'dataAt_nc') else None,
+      props=('C09', 'C20', 'C01', 'C02', 'C05', 'C06', 'C10', 'C15'), cost=8)
